@@ -67,6 +67,40 @@ Example pre_fix_member_list_order_dependent :
   member_names_maporder ["b"; "a"] <> member_names_maporder ["a"; "b"].
 Proof. vm_compute. discriminate. Qed.
 
+(* ---- collect / sort / use ---- *)
+Definition ex_print (acc : string) (k : string) : string := (acc ++ " " ++ k)%string.
+Example ex_sorted_range : sorted_range (fun _ => true) ex_print "<div" ["id"; "class"; "title"] = "<div class id title".
+Proof. vm_compute. reflexivity. Qed.
+(* the same body run straight over the map depends on the order (what the sites did before their fixes) *)
+Example ex_unsorted_range_order_dependent :
+  unsorted_range (fun _ => true) ex_print "<div" ["id"; "class"] <> unsorted_range (fun _ => true) ex_print "<div" ["class"; "id"].
+Proof. vm_compute. discriminate. Qed.
+(* a filter: only the abstract ones among the static methods *)
+Example ex_sorted_range_filter :
+  sorted_range (fun k => negb (String.eqb k "make")) (fun acc k => (acc ++ [k])%list) [] ["zeta"; "make"; "alpha"] = ["alpha"; "zeta"].
+Proof. vm_compute. reflexivity. Qed.
+Example ex_preferred_then_sorted :
+  preferred_then_sorted ["x"; "nope"; "w"; "x"] ["w"; "b"; "x"; "a"] = ["x"; "w"; "a"; "b"].
+Proof. vm_compute. reflexivity. Qed.
+(* hypotheses of preferred_then_sorted_permutation / _prefix are satisfiable *)
+Example ex_preferred_hyps : NoDup ["w"; "b"; "x"; "a"] /\ NoDup ["x"; "w"] /\ (forall k, In k ["x"; "w"] -> In k ["w"; "b"; "x"; "a"]).
+Proof.
+  split; [|split].
+  - repeat (constructor; [simpl; intuition discriminate|]). constructor.
+  - repeat (constructor; [simpl; intuition discriminate|]). constructor.
+  - simpl. intuition.
+Qed.
+Definition ex_is_for (k : string) : bool := String.eqb k "for".
+Example ex_pick_last : pick_last ex_is_for ["class"; "for"; "id"] = Some "for" /\ pick_last ex_is_for ["id"; "class"] = None.
+Proof. vm_compute. split; reflexivity. Qed.
+(* the uniqueness hypothesis of unique_pick_oracle_independent holds for the attribute names of an element *)
+Example ex_pick_unique : forall a b, In a ["class"; "for"; "id"] -> In b ["class"; "for"; "id"] -> ex_is_for a = true -> ex_is_for b = true -> a = b.
+Proof. intros a b _ _ Ha Hb. apply String.eqb_eq in Ha. apply String.eqb_eq in Hb. congruence. Qed.
+(* and fails for if + else-if on one element *)
+Definition ex_is_if (k : string) : bool := String.eqb k "if" || String.eqb k "else-if".
+Example ex_pick_two : pick_last ex_is_if ["if"; "else-if"] = Some "else-if" /\ pick_last ex_is_if ["else-if"; "if"] = Some "if".
+Proof. vm_compute. split; reflexivity. Qed.
+
 (* ---- process-level state ---- *)
 Definition ex_table : list (string * scope) :=
   [("ini:precision", ProcSticky); ("userOutputEmitted", ProcReset); ("class:K", PerVM)].
@@ -91,4 +125,10 @@ Example ex_check_om_bad :
   check_om ([OSet "a" 1; OSet "b" 2; ORange None], [RUnit; RUnit; RList [("b", 2%Z); ("a", 1%Z)]]) = [1%nat; 2%nat].
 Proof. vm_compute. reflexivity. Qed.
 Example ex_check_find_bad : check_find (["Foo"; "FOO"], "foo", [Some "Foo"; Some "FOO"]) = [1%nat; 3%nat].
+Proof. vm_compute. reflexivity. Qed.
+Example ex_check_sorted_ok : check_sorted (["kd"; "ka"; "kc"], [], ["ka"; "kc"; "kd"]) = [].
+Proof. vm_compute. reflexivity. Qed.
+Example ex_check_sorted_bad : check_sorted (["kd"; "ka"; "kc"], [], ["kd"; "ka"; "kc"]) = [1%nat].
+Proof. vm_compute. reflexivity. Qed.
+Example ex_check_sorted_preferred : check_sorted (["kd"; "ka"; "kc"], ["kd"; "ka"; "kc"], ["kd"; "ka"; "kc"]) = [].
 Proof. vm_compute. reflexivity. Qed.
